@@ -924,7 +924,8 @@ func evalActionAdd(node *ActionExpression, env *Environment) Object {
 		return addObj.Add(val)
 	}
 
-	return UNDEFINED
+	// only top-level attributes are supported: anything else must not be ignored silently
+	return newError("invalid ADD target: %s", node.Left.String())
 }
 
 func evalActionDelete(node *ActionExpression, env *Environment) Object {
@@ -954,7 +955,8 @@ func evalActionDelete(node *ActionExpression, env *Environment) Object {
 		return addObj.Delete(val)
 	}
 
-	return UNDEFINED
+	// only top-level attributes are supported: anything else must not be ignored silently
+	return newError("invalid DELETE target: %s", node.Left.String())
 }
 
 func evalActionRemove(node *ActionExpression, env *Environment) Object {
